@@ -66,14 +66,42 @@ def unpack_one(data: bytes) -> t.Tuple[t.Any, bytes]:
     from sansldap.asn1 import ASN1Reader
 
     r = ASN1Reader(data)
-    msg = M.unpack_ldap_message(r, M.PackingOptions())
+    msg = M.unpack_ldap_message(r, options())
     return msg, r.get_remaining_data()
 
 
+_OPTS: t.List[t.Any] = []
+
+
 def options() -> t.Any:
+    """One PackingOptions object for the whole run: packing / unpacking must not depend on what was packed before with
+    the same options (a session keeps one such object for its lifetime)."""
     import sansldap._messages as M
 
-    return M.PackingOptions()
+    if not _OPTS:
+        _OPTS.append(M.PackingOptions())
+    return _OPTS[0]
+
+
+def failing_pack(rnd: random.Random) -> None:
+    """A pack() that raises half way (a field that cannot be encoded).  Whatever it leaves behind must not leak into
+    later messages packed with the same options."""
+    import sansldap as s
+    import sansldap._messages as M
+
+    bad = "x\ud800"
+    k = rnd.randrange(4)
+    try:
+        if k == 0:
+            M.SearchRequest(5, [], "dc=ok", M.SearchScope.BASE, M.DereferencingPolicy.NEVER, 0, 0, False, s.FilterPresent("cn"), ["cn", bad]).pack(options())
+        elif k == 1:
+            M.SearchResultEntry(5, [], "cn=ok", [M.PartialAttribute("cn", [b"v", "not-bytes"])]).pack(options())  # type: ignore[list-item]
+        elif k == 2:
+            M.ExtendedResponse(5, [s.LDAPControl("1.2", True, b"v")], M.LDAPResult(M.LDAPResultCode(0), "ok", bad, None), None, None).pack(options())
+        else:
+            M.BindRequest(5, [], 3, "cn=ok", s.SaslCredential("GSSAPI", "not-bytes")).pack(options())  # type: ignore[arg-type]
+    except Exception:  # noqa: BLE001
+        return
 
 
 def sig_of(m: t.Dict[str, t.Any]) -> str:
@@ -103,7 +131,11 @@ def codec_event(msg: t.Any) -> t.Dict[str, t.Any]:
 def trace_part(rep: C.Report, wd: str, tier: str, rnd: random.Random, extra_msgs: t.Sequence[t.Any] = ()) -> None:
     n = 2500 if tier == "quick" else 40000
     msgs = list(extra_msgs) + [msggen.r_message(rnd) for _ in range(n)]
-    events = [codec_event(m) for m in msgs]
+    events = []
+    for m in msgs:
+        if rnd.random() < 0.06:
+            failing_pack(rnd)
+        events.append(codec_event(m))
     for e in events:
         rep.case((e["m"]["op"], str(e["packed"])[:400]))
     verdicts, gen, dist = C.validate_traces("CodecTrace", "CodecTrace.cfg", events, wd, tag="codec", timeout=1500)
